@@ -195,6 +195,13 @@ class Continuous(AgentSchedulingComponent):
             node_idx  = node['index']
             node_name = node['name']
 
+            # the node needs enough free lfs and mem for one more slot
+            if lfs_per_slot and node['lfs'] < lfs_per_slot * (len(slots) + 1):
+                break
+
+            if mem_per_slot and node['mem'] < mem_per_slot * (len(slots) + 1):
+                break
+
             self._log.debug_9('find resources on %s:%d', node_name, node_idx)
             self._log.debug_9('node: %s', pprint.pformat(node))
             self._log.debug_9('cps : %s', cores_per_slot)
